@@ -46,6 +46,7 @@ type Node struct {
 	AbsT    int64  `json:"abst,omitempty"`    // absolute timestamp instead
 	Bits    uint32 `json:"bits,omitempty"`    // override of the expected difficulty bits
 	BitsXor uint32 `json:"bitsxor,omitempty"` // expected bits xor this
+	NoClamp bool   `json:"noclamp,omitempty"` // bits of a retarget computed without the two clamps
 	BadPow  bool   `json:"badpow,omitempty"`  // hash above the target
 	PrevUnk int    `json:"prevunk,omitempty"` // PrevBlock is unknown hash number k (broken link)
 }
@@ -150,7 +151,9 @@ func unkHash(k int) chainhash.Hash {
 
 const unkBase = 900000
 
-func (p *pool) expectedBits(parent int) uint32 {
+func (p *pool) expectedBits(parent int) uint32 { return p.expectedBitsC(parent, true) }
+
+func (p *pool) expectedBitsC(parent int, clamp bool) uint32 {
 	P := &p.params
 	if P.PoWNoRetargeting {
 		return P.PowLimitBits
@@ -169,7 +172,11 @@ func (p *pool) expectedBits(parent int) uint32 {
 	actual := pb.hdr.Timestamp.Unix() - first.hdr.Timestamp.Unix()
 	minTS := int64(P.TargetTimespan.Seconds() / float64(P.RetargetAdjustmentFactor))
 	maxTS := int64(P.TargetTimespan.Seconds() * float64(P.RetargetAdjustmentFactor))
-	if actual < minTS {
+	if !clamp {
+		if actual < 1 {
+			actual = 1
+		}
+	} else if actual < minTS {
 		actual = minTS
 	} else if actual > maxTS {
 		actual = maxTS
@@ -207,7 +214,7 @@ func buildPool(variant int, nodes []Node, genFilt chainhash.Hash) *pool {
 				ts = 1
 			}
 			h.Timestamp = time.Unix(ts, 0)
-			h.Bits = p.expectedBits(n.Parent) ^ n.BitsXor
+			h.Bits = p.expectedBitsC(n.Parent, !n.NoClamp) ^ n.BitsXor
 			if n.Bits != 0 {
 				h.Bits = n.Bits
 			}
@@ -665,6 +672,19 @@ type gen struct {
 	r     *rand.Rand
 	nodes []Node
 	h     *History
+	// pace[k] is the block spacing of retarget period k of a retargeting
+	// chain: 0 as drawn, 1 fast (the lower clamp of the retarget binds),
+	// 2 slow (the upper clamp binds once two fast periods made the target
+	// 16 times harder than the limit)
+	pace []int
+}
+
+func (g *gen) height(n int) int {
+	h := 0
+	for ; n > 0; n = g.nodes[n].Parent {
+		h++
+	}
+	return h
 }
 
 func (g *gen) add(n Node) int {
@@ -683,7 +703,18 @@ func (g *gen) dt(variant int) int64 {
 func (g *gen) chain(on, n, variant int) []int {
 	out := []int{}
 	for i := 0; i < n; i++ {
-		on = g.add(Node{Parent: on, DT: g.dt(variant)})
+		dt := g.dt(variant)
+		if variant == 1 && g.pace != nil {
+			if k := g.height(on) / 6; k < len(g.pace) {
+				switch g.pace[k] {
+				case 1:
+					dt = 1 + int64(g.r.Intn(2))
+				case 2:
+					dt = 50 + int64(g.r.Intn(70))
+				}
+			}
+		}
+		on = g.add(Node{Parent: on, DT: dt})
 		out = append(out, on)
 	}
 	return out
@@ -719,11 +750,69 @@ func pickBatch(r *rand.Rand) int {
 	}
 }
 
+// pacedCheat: a retargeting chain whose periods are mined fast, fast, slow
+// (or slow after one fast one), imported from a low tip with a file whose
+// header at a retarget height claims the difficulty the rule gives WITHOUT
+// its clamps (k odd) or the honest chain that needs the clamp (k even).
+func pacedCheat(seed int64, id, k int) History {
+	r := c.Rng(seed, id)
+	g := &gen{r: r, nodes: []Node{{Parent: -1}}}
+	g.pace = [][]int{{1, 1, 2, 0}, {1, 1, 1, 2}, {1, 2, 2, 0}}[(k/2)%3]
+	N := 25
+	main := append([]int{0}, g.chain(0, N-1, 1)...)
+	B := []int{0, 3, 11, 17}[(k/6)%4]
+	E := N - 1
+	h := History{ID: id, Variant: 1}
+	S := B + 1
+	if k%4 >= 2 {
+		S = 0
+	}
+	bfile := append([]int{}, main[S:E+1]...)
+	ffile := seqTok(S, E)
+	if S == 0 {
+		ffile[0] = 0
+	}
+	tag := "paced-honest"
+	if k%2 == 1 {
+		// the retarget after the last paced period above the tip
+		cpos := 0
+		for rh := 6; rh <= E; rh += 6 {
+			if rh > B && rh/6-1 < len(g.pace) && g.pace[rh/6-1] != 0 {
+				cpos = rh
+			}
+		}
+		n := Node{Parent: main[cpos-1], DT: g.nodes[main[cpos]].DT, NoClamp: true}
+		alt := []int{g.add(n)}
+		alt = append(alt, g.chain(alt[0], E-cpos, 1)...)
+		bfile = append(append([]int{}, main[S:cpos]...), alt...)
+		tag = "corrupt-bits-unclamped"
+	}
+	op := importOp(bfile, ffile, S, []int{0, 1, 4, 1000}[(k/2)%4], tag)
+	h.InitB = append([]int{}, main[:B+1]...)
+	h.InitF = seqTok(0, B)
+	h.InitF[0] = 0
+	rep := op
+	rep.BFile = append([]int{}, op.BFile...)
+	rep.FFile = append([]int{}, op.FFile...)
+	rep.Tag = "repeat"
+	h.Ops = []Op{op, rep}
+	h.Nodes = g.nodes
+	return h
+}
+
 func genHistory(seed int64, id int) History {
+	if id%25 == 7 {
+		return pacedCheat(seed, id, id/25+int(seed%24))
+	}
 	r := c.Rng(seed, id)
 	variant := r.Intn(2)
 	g := &gen{r: r, nodes: []Node{{Parent: -1}}}
 	N := 8 + r.Intn(18)
+	if variant == 1 && r.Intn(3) == 0 {
+		// paced periods: both clamps of the retarget rule bind
+		N = 20 + r.Intn(6)
+		g.pace = [][]int{{1, 1, 2, 0, 0}, {1, 2, 1, 2, 0}, {1, 1, 1, 2, 2}, {2, 1, 1, 2, 1}}[r.Intn(4)]
+	}
 	main := append([]int{0}, g.chain(0, N-1, variant)...) // main[h] = node at height h
 	B := 1 + r.Intn(N-2)                                  // block tip of the target
 	if r.Intn(8) == 0 {
@@ -831,6 +920,21 @@ func genHistory(seed int64, id int) History {
 		case 6:
 			n.DT += 1 + int64(r.Intn(3))
 			tag = "fork"
+		}
+		if g.pace != nil && r.Intn(2) == 0 {
+			// a retarget header claiming the difficulty the rule would
+			// give without its clamps, after a paced period
+			var rhs []int
+			for rh := 6; rh <= E; rh += 6 {
+				if rh >= lo && rh/6-1 < len(g.pace) && g.pace[rh/6-1] != 0 {
+					rhs = append(rhs, rh)
+				}
+			}
+			if len(rhs) > 0 {
+				cpos = rhs[r.Intn(len(rhs))]
+				n = Node{Parent: main[cpos-1], DT: g.nodes[main[cpos]].DT, NoClamp: true}
+				tag = "bits-unclamped"
+			}
 		}
 		alt := []int{g.add(n)}
 		alt = append(alt, g.chain(alt[0], E-cpos, variant)...)
